@@ -203,6 +203,9 @@ pub trait Glue {
     fn to_bincode(&self, slot: usize) -> Result<Vec<u8>, String>;
     fn from_json(&mut self, slot: usize, variant: usize, text: &str) -> Result<(), String>;
     fn from_bincode(&mut self, slot: usize, variant: usize, bytes: &[u8]) -> Result<(), String>;
+    /// through `serde_json::Value` (a self-describing deserializer that knows its length)
+    fn to_json_value(&self, slot: usize) -> Result<String, String>;
+    fn from_json_value(&mut self, slot: usize, variant: usize, text: &str) -> Result<(), String>;
 }
 
 /// Entry of a shard's registry.
